@@ -33,3 +33,8 @@ add("C16", "exploration",
     "Trusted: harness/ref encoder/decoder; CountingHook. Independence is asserted only for operations that are copies by documentation/implementation (cross-message, list members, SetStruct, CopyFrom), not for same-message SetPtr of a standalone object (which aliases).",
     "property-based testing with independent decoder + structural disjointness invariant (rapid)",
     "DESIGN.md section 4, C16")
+add("C01", "exploration",
+    "Hostile messages from five generators (pointer-word grammar with boundary targets/sizes/counts, mutated valid typed messages, mutated reference-encoded trees, byte streams through the framing/packing layers, sparse 0.5-1 MiB segments with counts around 2^22/2^29) are opened through seven arena/framing paths (incl. an arena that fails) under drawn traversal/depth limits and capability tables; every accessor and every whole-tree consumer (Equal, Canonicalize, deep copy, text.Marshal for 5 schemas, pogs.Extract, generated accessors/String) must return without panic within the watchdog, the process must survive (crash journal), the lock-step reference decoder must confirm each successful dereference inside its segment, and Text/Data slices must alias a supplied segment by address.",
+    "Trusted: harness/ref bounds rules; cap==len carving turns over-reads into panics. Consumers with a high per-element cost only run when the traversal budget is <=1 MiB or the walk was small, so amplification up to the default 64 MiB budget is exercised only by the O(1)-per-element consumers. 64-bit only.",
+    "grammar-based + mutation-based property testing with crash journal, lock-step reference decoder and watchdog (rapid); native fuzzing in the thorough tier",
+    "DESIGN.md section 3, C01")
